@@ -198,7 +198,12 @@ def gen_sunflower(rng, tier):
         kept_k2 = sorted({a['labels'].get('k2', 0) for a in kept})
         # the documented domain of the calculator is k2 = 0 .. n-1 among the readouts that are actually loaded (when the coil-count selection
         # keeps the other-coil acquisitions instead of the image ones, their k2 labels must satisfy it too)
-        if len(kept) >= 2 and kept_k2 == list(range(len(kept_k2))):
+        # ... in every `other` group (a complete grid): the calculator numbers the k2 lines by their first appearance in the loaded array
+        groups = {}
+        for a in kept:
+            key = tuple(sorted((k, v) for k, v in a['labels'].items() if k not in ('k1', 'k2') and v != 0))
+            groups.setdefault(key, set()).add(a['labels'].get('k2', 0))
+        if len(kept) >= 2 and kept_k2 == list(range(len(kept_k2))) and all(g == set(kept_k2) for g in groups.values()):
             cases.append(c)
     return cases
 
